@@ -510,4 +510,177 @@ Section V1Proofs.
       run _ v1_iter v1_init (hdr ++ payload ++ rest) acc =
       run _ v1_iter v1_init rest (acc ++ [v1_get_received_message (V1D hdr payload)]).
   Proof. intros. apply v1_frame; auto; lia. Qed.
+  (* ---------------------------------------------------------------------------------------------- *)
+  (* ANY stream: what the receiver outputs is a parse of the stream into frames (24 header bytes announcing the
+     length of the payload that follows), one output per frame, in order; a frame is Delivered only if its checksum
+     field is the checksum of its payload.  No premise on the stream: tampered, truncated, garbage. *)
+  Definition v1_pend (s : v1st) : list N := match s with V1H buf => buf | V1D hdr data => hdr ++ data end.
+  Definition frame_ok (f : list N * list N) : Prop :=
+    length (fst f) = 24 /\ hdr_size (fst f) = Z.of_nat (length (snd f)).
+  Definition frame_out (f : list N * list N) : out := v1_get_received_message (V1D (fst f) (snd f)).
+  Definition frame_bytes (f : list N * list N) : list N := fst f ++ snd f.
+
+  Lemma v1_G_parse s t s' o : v1_wf s -> length t <= v1_need s -> v1_G s t = Some (s', o) ->
+      (o = [] /\ v1_pend s' = v1_pend s ++ t) \/
+      (exists f, frame_ok f /\ o = [frame_out f] /\ frame_bytes f = v1_pend s ++ t /\ s' = v1_init).
+  Proof.
+    intros Hwf Hlen E. pose proof HEADER_SIZE_24 as H24.
+    assert (Hdone : forall h d, length h = 24 -> v1_done (V1D h d) = Some (s', o) ->
+              (o = [] /\ v1_pend s' = h ++ d) \/
+              (exists f, frame_ok f /\ o = [frame_out f] /\ frame_bytes f = h ++ d /\ s' = v1_init)).
+    { intros h d Hl Hd. unfold v1_done in Hd. cbn [v1_complete] in Hd.
+      destruct (Z.eqb_spec (hdr_size h) (Z.of_nat (length d))) as [He|Hn]; inversion Hd; subst.
+      - right. exists (h, d). unfold frame_ok, frame_out, frame_bytes. cbn [fst snd]. auto.
+      - left. auto. }
+    destruct s as [buf|hdr data]; cbn [v1_wf v1_G v1_pend v1_need] in *.
+    - destruct (Nat.ltb_spec (length (buf ++ t)) HEADER_SIZE) as [Hlt|Hge].
+      + inversion E; subst. left. auto.
+      + destruct (negb _); [discriminate|]. destruct (_ || _); [discriminate|].
+        assert (Hl : length (buf ++ t) = 24) by (rewrite app_length in *; lia).
+        destruct (Hdone (buf ++ t) [] Hl E) as [[Ho Hp]|Hf].
+        * left. rewrite app_nil_r in Hp. auto.
+        * right. rewrite app_nil_r in Hf. exact Hf.
+    - destruct Hwf as [Hh _]. rewrite H24 in Hh. rewrite <- app_assoc. apply Hdone; auto.
+  Qed.
+
+  Fixpoint flat_frames (fs : list (list N * list N)) : list N :=
+    match fs with [] => [] | f :: r => frame_bytes f ++ flat_frames r end.
+  Lemma flat_frames_app a b : flat_frames (a ++ b) = flat_frames a ++ flat_frames b.
+  Proof. induction a as [|f r IH]; cbn [app flat_frames]; auto. rewrite IH, app_assoc. reflexivity. Qed.
+
+  Definition parsed (W : list N) (c : conn v1st) : Prop :=
+    match c with
+    | Alive s outs => exists fs, Forall frame_ok fs /\ outs = map frame_out fs /\ W = flat_frames fs ++ v1_pend s
+    | Dead outs => exists fs junk, Forall frame_ok fs /\ outs = map frame_out fs /\ W = flat_frames fs ++ junk
+    | OutOfFuel => False
+    end.
+
+  Theorem v1_parse_sound W : small W -> parsed W (run _ v1_iter v1_init W []).
+  Proof.
+    intros Hs.
+    set (P := fun (s : v1st) (w : list N) (acc : list out) =>
+                exists fs, Forall frame_ok fs /\ acc = map frame_out fs /\ W = flat_frames fs ++ v1_pend s ++ w).
+    assert (HH := run_inv _ v1_iter v1_wf small v1_doomed).
+    specialize (HH small_app_l small_app_r v1_ok_wf_iter v1_M1 v1_M1f v1_M2 v1_doomed_fail P (parsed W)).
+    apply HH with (n := length W); auto.
+    - intros s acc [fs [Hf [Ha Hw]]]. cbn [parsed]. exists fs. rewrite app_nil_r in Hw. auto.
+    - intros s w acc _ _ _ [fs [Hf [Ha Hw]]] _. cbn [parsed]. exists fs, (v1_pend s ++ w). auto.
+    - intros s w acc s' r o Hwf Hok Hne [fs [Hf [Ha Hw]]] E.
+      rewrite v1_iter_aiter in E by auto. unfold aiter in E.
+      destruct (v1_G s (firstn (v1_need s) w)) as [[s2 o2]|] eqn:EG; [|discriminate].
+      injection E as E1 E2 E3. subst s2 o2.
+      pose proof (firstn_skipn (v1_need s) w) as Hfs. rewrite E2 in Hfs.
+      pose proof (firstn_le_length (v1_need s) w) as Hle.
+      remember (firstn (v1_need s) w) as tk eqn:Etk. clear Etk.
+      destruct (v1_G_parse s tk s' o Hwf Hle EG)
+        as [[Ho Hp]|[f [Hfo [Ho [Hb Hs']]]]].
+      + exists fs. subst o. rewrite app_nil_r. split; auto. split; auto.
+        rewrite Hp, <- app_assoc, Hfs. exact Hw.
+      + exists (fs ++ [f]). split; [apply Forall_app; auto|]. split.
+        * rewrite map_app, Ha, Ho. reflexivity.
+        * rewrite flat_frames_app. cbn [flat_frames]. rewrite app_nil_r, Hb, Hs'. cbn [v1_pend v1_init app].
+          rewrite Hw, <- Hfs. rewrite <- !app_assoc. reflexivity.
+    - apply v1_init_wf.
+    - exists []. cbn. auto.
+  Qed.
+
+  (* hence: whatever the stream, a Delivered payload carries the checksum that stood in its frame's header *)
+  Lemma frame_out_delivered f t p : frame_out f = Delivered t p -> p = snd f /\ H4 p = hdr_cks (fst f).
+  Proof.
+    unfold frame_out, Transport.v1_get_received_message.
+    destruct (bytes_eqb (H4 (snd f)) (hdr_cks (fst f))) eqn:E; cbn [negb]; [|discriminate].
+    destruct (v1_type_valid _); cbn [negb]; [|discriminate]. intros H. inversion H; subst.
+    apply bytes_eqb_eq in E. auto.
+  Qed.
+  (* ---------------------------------------------------------------------------------------------- *)
+  (* the sender: whatever the socket writer's schedule of partial sends, the bytes handed out are the encoding *)
+  Definition send_remaining (s : v1send) : list N :=
+    if sd_hdr_phase s then skipn (sd_sent s) (sd_header s) ++ sd_data s else skipn (sd_sent s) (sd_data s).
+  Definition send_wf (s : v1send) : Prop :=
+    if sd_hdr_phase s then sd_sent s < length (sd_header s) else (sd_sent s < length (sd_data s) \/ sd_sent s = 0)%nat.
+
+  Lemma skipn_add {A} (a b : nat) (l : list A) : skipn (a + b) l = skipn b (skipn a l).
+  Proof. revert l. induction a as [|a IH]; intros l; cbn [Nat.add skipn]; auto. destruct l; auto. destruct b; auto. Qed.
+
+  Lemma bytes_to_send_nil s : send_wf s -> v1_bytes_to_send s = [] -> send_remaining s = [] /\ sd_hdr_phase s = false.
+  Proof.
+    unfold send_wf, v1_bytes_to_send, send_remaining. destruct (sd_hdr_phase s); intros Hwf He.
+    - exfalso. apply (f_equal (@length N)) in He. rewrite skipn_length in He. cbn [length] in He. lia.
+    - auto.
+  Qed.
+
+  Lemma pump_step s k : send_wf s -> v1_bytes_to_send s <> [] ->
+      let avail := v1_bytes_to_send s in
+      let k' := Nat.max 1 (Nat.min k (length avail)) in
+      let s' := v1_mark_bytes_sent s k' in
+      firstn k' avail ++ send_remaining s' = send_remaining s /\ send_wf s' /\
+      length (send_remaining s') < length (send_remaining s).
+  Proof.
+    intros Hwf Hne. cbv zeta.
+    remember (v1_bytes_to_send s) as avail eqn:Eav.
+    assert (Hal : 1 <= length avail) by (destruct avail; [congruence|cbn [length]; lia]).
+    remember (Nat.max 1 (Nat.min k (length avail))) as k' eqn:Ek.
+    assert (Hk : 1 <= k' <= length avail) by lia. clear Ek Hne.
+    destruct s as [ph sent hdr data]. unfold send_wf, v1_bytes_to_send, send_remaining, v1_mark_bytes_sent in *.
+    cbn [sd_hdr_phase sd_sent sd_header sd_data] in *.
+    destruct ph; cbn [andb negb].
+    - assert (Hav : length avail = length hdr - sent) by (rewrite Eav; apply skipn_length).
+      destruct (Nat.eqb_spec (sent + k') (length hdr)) as [He|Hn]; cbn [sd_hdr_phase sd_sent sd_header sd_data].
+      + assert (Hka : k' = length avail) by lia. rewrite Hka, firstn_all. cbn [skipn]. rewrite Eav.
+        split; auto. split; [right; auto|]. rewrite app_length, skipn_length. lia.
+      + rewrite skipn_add, <- Eav. rewrite app_assoc, firstn_skipn. split; auto.
+        split; [lia|]. rewrite !app_length, !skipn_length. lia.
+    - assert (Hav : length avail = length data - sent) by (rewrite Eav; apply skipn_length).
+      destruct (Nat.eqb_spec (sent + k') (length data)) as [He|Hn]; cbn [sd_hdr_phase sd_sent sd_header sd_data].
+      + assert (Hka : k' = length avail) by lia. rewrite Hka, firstn_all. cbn [skipn]. rewrite app_nil_r, Eav.
+        split; auto. split; [right; auto|]. cbn [length]. rewrite skipn_length. lia.
+      + rewrite skipn_add, <- Eav. rewrite firstn_skipn. split; auto.
+        split; [left; lia|]. rewrite !skipn_length. lia.
+  Qed.
+
+  Lemma v1_pump_emits : forall sched s acc, send_wf s ->
+      let r := v1_pump sched s acc in
+      snd r ++ send_remaining (fst r) = acc ++ send_remaining s /\ send_wf (fst r) /\
+      (length (send_remaining s) <= length sched -> send_remaining (fst r) = [] /\ sd_hdr_phase (fst r) = false).
+  Proof.
+    induction sched as [|k r IH]; intros s acc Hwf; cbn [v1_pump].
+    - cbn [fst snd length]. split; auto. split; auto. intros Hl.
+      assert (send_remaining s = []) by (destruct (send_remaining s); [auto|cbn [length] in Hl; lia]).
+      split; auto. unfold send_remaining, send_wf in *. destruct (sd_hdr_phase s); auto.
+      exfalso. apply (f_equal (@length N)) in H. rewrite app_length, skipn_length in H. cbn [length] in H. lia.
+    - destruct (v1_bytes_to_send s) as [|b0 av] eqn:Eav.
+      + cbn [fst snd]. destruct (bytes_to_send_nil s Hwf Eav) as [Hr Hp]. split; auto.
+      + assert (Hne : v1_bytes_to_send s <> []) by (rewrite Eav; discriminate).
+        destruct (pump_step s k Hwf Hne) as [H1 [H2 H3]]. rewrite Eav in H1, H2, H3.
+        cbv zeta in H1, H2, H3.
+        specialize (IH (v1_mark_bytes_sent s (Nat.max 1 (Nat.min k (length (b0 :: av)))))
+                       (acc ++ firstn (Nat.max 1 (Nat.min k (length (b0 :: av)))) (b0 :: av)) H2).
+        cbv zeta in IH. destruct IH as [I1 [I2 I3]].
+        split; [rewrite I1, <- app_assoc, H1; reflexivity|]. split; auto.
+        intros Hl. apply I3. cbn [length] in Hl. lia.
+  Qed.
+
+  (* THEOREM (v1 sender): after SetMessageToSend, for every schedule of partial sends with enough steps, the bytes
+     handed out by GetBytesToSend / MarkBytesSent are exactly the encoding, and the next message can be set *)
+  Theorem v1_sender_emits_encoding type payload sched s0 :
+      v1_set_message_to_send magic H4 v1send_init type payload = Some s0 ->
+      length (v1_encode magic H4 type payload) <= length sched ->
+      snd (v1_pump sched s0 []) = v1_encode magic H4 type payload /\
+      (forall t p, v1_set_message_to_send magic H4 (fst (v1_pump sched s0 [])) t p <> None).
+  Proof.
+    intros Hset Hlen. unfold v1_set_message_to_send, v1send_init in Hset. cbn in Hset. inversion Hset; subst s0. clear Hset.
+    set (s0 := {| sd_hdr_phase := true; sd_sent := 0; sd_header := v1_header magic H4 type payload; sd_data := payload |}).
+    assert (Hl24 : 0 < length (v1_header magic H4 type payload)).
+    { unfold v1_header. rewrite !app_length, magic_len, MESSAGE_START_SIZE_4. lia. }
+    assert (Hwf : send_wf s0) by (unfold send_wf, s0; cbn [sd_hdr_phase sd_sent sd_header]; exact Hl24).
+    destruct (v1_pump_emits sched s0 [] Hwf) as [H1 [H2 H3]]. cbv zeta in H1, H2, H3.
+    assert (Hrem : send_remaining s0 = v1_encode magic H4 type payload) by reflexivity.
+    rewrite Hrem in H1, H3. destruct (H3 Hlen) as [Hr Hp]. rewrite Hr, app_nil_r in H1. cbn [app] in H1.
+    split; auto. intros t p. unfold v1_set_message_to_send. rewrite Hp. cbn [orb].
+    unfold send_remaining, send_wf in *. rewrite Hp in Hr, H2.
+    destruct (Nat.ltb_spec (sd_sent (fst (v1_pump sched s0 []))) (length (sd_data (fst (v1_pump sched s0 []))))) as [Hlt|Hge]; [|discriminate].
+    exfalso. apply (f_equal (@length N)) in Hr. rewrite skipn_length in Hr. cbn [length] in Hr. lia.
+  Qed.
 End V1Proofs.
+
+
